@@ -284,7 +284,7 @@ pub fn search<W: WorldDriver>(spec: &PropSpec, cfg: &Cfg, cases: u32, max_len: u
         if let Some(f) = out.fail {
             failure = Some((case, f));
         } else {
-            failure = Some((case, Fail { tags: vec![spec.id], msg: "shrunk case no longer fails when re-run (non-deterministic?)".into(), step: 0, sig: "flaky".into() }));
+            failure = Some((case, Fail { tags: vec![spec.id], msg: "shrunk case no longer fails when re-run (non-deterministic?)".into(), step: 0, sig: "flaky".into(), parts: Vec::new() }));
         }
     }
     Search { stats: stats.into_inner(), failure }
